@@ -203,6 +203,11 @@ def resolve_arg(u, arg):
 def resolve_operand(u, enforce, typed, m, operand, keep_payload=False):
     kind, pairs = operand
     seen, items = set(), []
+    if kind == "setdup":
+        # a built-in set holding several items with ONE key (they differ in payload): as an operand of a comparison it stands
+        # for its keys, however many items carry each
+        items = [u.item(ki, p) for ki, p in pairs]
+        return set(items), items
     for ki, p in pairs:
         if ki in seen:
             continue
@@ -361,7 +366,9 @@ def run_case(ctx, case):
                 m.clear()
             elif name in BINARY_NEW + BINARY_CMP + BINARY_INPLACE:
                 kind = op[1][0]
-                if kind in ("set", "fset") and not u.hashable and op[1][1]:
+                if kind == "setdup" and enforce:
+                    continue  # (under enforcement membership also asks for an equal payload: one key with two payloads has no key-only reading)
+                if kind in ("set", "fset", "setdup") and not u.hashable and op[1][1]:
                     continue  # (a built-in set cannot hold unhashable items - but the empty built-in set is a legal operand)
                 # |= and ^= ADD items: under enforcement an unequal item under an existing key makes the whole operation raise
                 # ValueError "and changes nothing" - so these two also get operands whose payloads differ
@@ -438,10 +445,11 @@ def run_case(ctx, case):
                         "eq": lambda: s == other, "ne": lambda: s != other, "isdisjoint": lambda: s.isdisjoint(other),
                     }[name]()
                     same_map = ka == kb and all(m[k] == om[k] for k in ka)
+                    dup = kind == "setdup"
                     want = {
                         "le": ka <= kb, "lt": ka < kb, "ge": ka >= kb, "gt": ka > kb,
-                        "eq": True if same_map else (False if ka != kb else None),
-                        "ne": False if same_map else (True if ka != kb else None),
+                        "eq": (True if same_map else (False if ka != kb else None)) if not dup else (False if ka != kb else None),
+                        "ne": (False if same_map else (True if ka != kb else None)) if not dup else (True if ka != kb else None),
                         "isdisjoint": not (ka & kb),
                     }[name]
                     if want is not None and r is not want:
@@ -531,6 +539,11 @@ def all_ops(u, typed, maxn_operand):
     for name in BINARY_CMP:  # the other built-in set type
         for operand in operands(u, maxn_operand):
             ops.append([name, ["fset", operand]])
+    if len(u.payloads) > 1:
+        for name in BINARY_CMP:
+            for ki in range(u.nkeys):
+                ops.append([name, ["setdup", [[ki, 0], [ki, 1]]]])
+                ops.append([name, ["setdup", [[ki, 0], [ki, 1], [(ki + 1) % u.nkeys, 0]]]])
     return ops
 
 
